@@ -769,6 +769,9 @@ func (e *Env) evalCall(ex *SExpr) Val {
 				panic(undecidableErr{"the clause names function " + e.strArg(args[1]) + ", which no longer exists"})
 			}
 			i := e.intArg(args[2])
+			if i < 0 || i >= len(f.FreeVars) {
+				panic(undecidableErr{fmt.Sprintf("the clause names captured variable #%d of %s, which captures only %d variable(s) now", i, e.strArg(args[1]), len(f.FreeVars))})
+			}
 			fv := f.FreeVars[i]
 			r := Val{Typ: fv.Type()}
 			for _, lf := range leavesOf(fv.Type()) {
